@@ -350,6 +350,20 @@ theorem source_single_group_eq_ungrouped (k : Kind) (β : Rat) (hβ : 0 ≤ β) 
   simp only [run, LoopBridge.runE]
   cases emaOut (List.foldl (emaStep β) eInit (List.take i xs)) xs[i] <;> rfl
 
+/-- **the translated ungrouped `_ema_time_weighted`** holds, at every row, the single-series time-weighted model's output
+(decay `exp(-ln 2 · Δt / halflife)` between consecutive rows, a leading NaN gives NaN) -/
+theorem source_ema_time_weighted_eq_model (k : Kind) (ln2 : FVal) (expf : FVal → FVal) (halflife : Int) (decay : Int → Rat)
+    (hdec : ∀ d : Int, expf (FVal.mul (FVal.neg ln2) (FVal.divII d halflife)) = .q (decay d))
+    (hdec0 : ∀ d : Int, 0 ≤ decay d)
+    (vals : List FVal) (times : List Int) (hlen : vals.length = times.length) (hne : 0 < vals.length)
+    (i : Nat) (hi : i < vals.length) :
+    (Generated.Loops.ema_time_weighted k ln2 expf vals.length (arrOf vals .nan) times.length (arrOf times 0) halflife).1 (i : Int)
+      = LoopBridge.optF (emaOutTimed decay
+          (LoopBridge.runTE decay (((List.range vals.length).map fun i =>
+            (times.getD i 0, LoopBridge.obsOf (vals.getD i .nan) false)).take i))
+          (((List.range vals.length).map fun i => (times.getD i 0, LoopBridge.obsOf (vals.getD i .nan) false)).getD i (0, none))) :=
+  (LoopBridge.ema_time_weighted_eq k ln2 expf halflife decay hdec hdec0 vals times hlen hne i hi).2
+
 /-- non-vacuity: alpha = 1/2, two interleaved groups, a NaN, a null key, a masked row -/
 example :
     let r := Generated.Loops.ema_grouped .f 6 (arrOf [0, 1, -1, 0, 0, 1] 0) 6
